@@ -296,3 +296,185 @@ Fixpoint drive (old slow : bool) (fuel : nat) (s : state) : state :=
   | O => s
   | S f => match next_proto old slow s with Some l => drive old slow f (step old s l) | None => s end
   end.
+
+(* ================= arithmetic of the frame handler (ClientMgr.handle_back) =================
+   The places where the Rust code does unchecked arithmetic or indexing on values that come from the server. *)
+
+(* the inclusive id range `range` collected by the array loop of handle_recv_message *)
+Definition frame_range (s : ClientMgr.st) (fr : inframe) : option (N * N) :=
+  match fr with
+  | FArray ms => match array_loop s ms [] None false with
+                 | inl (_, _, Some r, _) => Some r
+                 | _ => None
+                 end
+  | _ => None
+  end.
+(* the value of `range.end` after "the range is exclusive so need to add one", where the code computes it:
+   NOW `range.end.checked_add(1)` (None = the error path), OLD `range.end += 1` *)
+Definition range_end_now (s : ClientMgr.st) (fr : inframe) : option N :=
+  match frame_range s fr with
+  | Some (lo, hi) => if hi =? u64_max then None else Some (hi + 1)
+  | None => None
+  end.
+Definition range_end_old (s : ClientMgr.st) (fr : inframe) : option N :=
+  match frame_range s fr with Some (lo, hi) => Some (hi + 1) | None => None end.
+
+Definition overflow_frame : bytes := b#"[{""id"":18446744073709551615,""result"":1}]".
+
+(* ================= glue for the engine `clifault` =================
+   The shutdown model (who is told what, when) composed with the manager/frame model of ClientMgr.v (which
+   frames are written, which answer completes which call, which frame is fatal).  ClientMgr's own abstract
+   shutdown (`try_kill`/`settle`/`step`) is not used: only `apply`, `drain`, `poll_next`, `kill`. *)
+Inductive cmd :=
+| KCall (h : handle) (e : ClientMgr.ev)      (* request / batch / subscribe: e is the manager event for it *)
+| KOnDisc (h : handle)
+| KIsConn
+| KNext (h : handle)
+| KBack (raw : bytes)
+| KFailSend | KRecvFault | KPeerClose | KReleaseClose | KDropClient | KSettle.
+
+Inductive sout :=
+| YWire (raw : bytes)
+| YComp (h : handle) (r : cres)          (* completed by the manager: an answer *)
+| YFail (h : handle) (o : obs)           (* completed by the shutdown: cause or placeholder *)
+| YDisc (h : handle) (o : obs)           (* an on_disconnect() future completed *)
+| YConn (b : bool)
+| YNext (r : nextres)
+| YX (k : N).                            (* 0: transport close() entered, 1: sender dropped, 2: receiver dropped *)
+
+Record sys := {
+  y_cs : state;
+  y_ms : ClientMgr.st;
+  y_slow : bool;                 (* the transport's close() blocks until released *)
+  y_released : bool;
+  y_mdead : bool;                (* the manager has been dropped *)
+  y_pend : list (handle * ClientMgr.ev);
+  y_ondisc : list handle
+}.
+
+Definition sys_init (slow : bool) : sys :=
+  {| y_cs := init; y_ms := ClientMgr.init false 1024 8 false; y_slow := slow; y_released := false; y_mdead := false;
+     y_pend := []; y_ondisc := [] |}.
+
+Definition upd_cs (y : sys) (c : state) : sys :=
+  {| y_cs := c; y_ms := y_ms y; y_slow := y_slow y; y_released := y_released y; y_mdead := y_mdead y;
+     y_pend := y_pend y; y_ondisc := y_ondisc y |}.
+Definition upd_ms (y : sys) (x : ClientMgr.st) : sys :=
+  {| y_cs := y_cs y; y_ms := x; y_slow := y_slow y; y_released := y_released y; y_mdead := y_mdead y;
+     y_pend := y_pend y; y_ondisc := y_ondisc y |}.
+
+Definition mgr_outs (o : list ClientMgr.out) : list sout :=
+  flat_map (fun x => match x with OWire raw => [YWire raw] | OComplete h r => [YComp h r] | OFatal _ => [] end) o.
+Definition answered (o : list ClientMgr.out) : list handle :=
+  flat_map (fun x => match x with OComplete h _ => [h] | _ => [] end) o.
+Definition newly_dying (a b : ClientMgr.st) : bool := is_none (dying a) && negb (is_none (dying b)).
+
+(* run the manager's send-side work that is queued in it; a failing transport write shows as `dying` *)
+Definition mgr_drain (x : ClientMgr.st) : ClientMgr.st * list ClientMgr.out :=
+  ClientMgr.drain (S (length (queue x) + length (waiting x))) x.
+
+Definition first_caller_step (c : state) : option label :=
+  let try_h (hc : handle * cpc) :=
+    if enabled false c (LCallerDropped (fst hc)) then Some (LCallerDropped (fst hc))
+    else if enabled false c (LReadErr (fst hc)) then Some (LReadErr (fst hc)) else None in
+  fold_right (fun hc acc => match try_h hc with Some l => Some l | None => acc end) None (callers c).
+
+(* the runtime polled to quiescence *)
+Fixpoint quiesce (fuel : nat) (y : sys) : sys * list sout :=
+  match fuel with
+  | O => (y, [])
+  | S f =>
+    let c := y_cs y in
+    if enabled false c LSendOk then
+      match hd_error (fqueue c) with
+      | Some h =>
+        match alookup N.eqb h (y_pend y) with
+        | Some e =>
+          let '(m1, o1, _) := ClientMgr.apply (y_ms y) e in
+          let '(m2, o2) := mgr_drain m1 in
+          let l := if newly_dying (y_ms y) m2 then LSendFault else LSendOk in
+          let '(y', o) := quiesce f (upd_ms (upd_cs y (step false c l)) m2) in
+          (y', mgr_outs (o1 ++ o2) ++ o)
+        | None => quiesce f (upd_cs y (step false c LSendOk))
+        end
+      | None => (y, [])
+      end
+    else
+      match next_proto false (y_slow y && negb (y_released y)) c with
+      | Some l => quiesce f (upd_cs y (step false c l))
+      | None =>
+        match first_caller_step c with
+        | Some l => quiesce f (upd_cs y (step false c l))
+        | None => (y, [])
+        end
+      end
+  end.
+
+Definition obs_of (c : option cpc) : option obs :=
+  match c with Some (CDone OOk) => None | Some (CDone o) => Some o | _ => None end.
+
+(* what became visible between two states of the shutdown model *)
+Definition diff_done (a b : state) (ondisc : list handle) : list sout :=
+  flat_map (fun hc =>
+    let h := fst hc in
+    match obs_of (get_c a h), obs_of (Some (snd hc)) with
+    | None, Some o => if existsb (N.eqb h) ondisc then [YDisc h o] else [YFail h o]
+    | _, _ => []
+    end) (callers b).
+Definition sp_closing_b (x : spc) : bool := match x with SClosing | SExited => true | _ => false end.
+Definition diff_x (a b : state) : list sout :=
+  (if negb (sp_closing_b (sp a)) && sp_closing_b (sp b) then [YX 0] else []) ++
+  (if negb (sp_exited a) && sp_exited b then [YX 1] else []) ++
+  (if negb (rp_exited a) && rp_exited b then [YX 2] else []).
+
+Definition do_cmd (y : sys) (k : cmd) : sys * list sout :=
+  let c := y_cs y in
+  match k with
+  | KCall h e =>
+    ({| y_cs := step false c (LNewCall h); y_ms := y_ms y; y_slow := y_slow y; y_released := y_released y;
+        y_mdead := y_mdead y; y_pend := (h, e) :: y_pend y; y_ondisc := y_ondisc y |}, [])
+  | KOnDisc h =>
+    ({| y_cs := step false c (LOnDisc h); y_ms := y_ms y; y_slow := y_slow y; y_released := y_released y;
+        y_mdead := y_mdead y; y_pend := y_pend y; y_ondisc := h :: y_ondisc y |}, [])
+  | KIsConn => (y, if dropped c then [] else [YConn (is_connected c)])
+  | KNext h => let '(m', r) := poll_next (y_ms y) h in (upd_ms y m', [YNext r])
+  | KBack raw =>
+    if enabled false c LRecvFault then        (* the read task is in its loop *)
+      let '(m1, o1, _) := ClientMgr.apply (y_ms y) (Back raw) in
+      if newly_dying (y_ms y) m1 then
+        match dying m1 with
+        | Some f => (upd_ms (upd_cs y (step false c (LBadFrame f))) m1, mgr_outs o1)
+        | None => (y, [])
+        end
+      else
+        let c1 := fold_left (fun c' h => step false c' (LAnswer h)) (answered o1) c in
+        if enabled false c1 LSendFault then    (* the send task is in its loop: it takes what the read task forwarded *)
+          let '(m2, o2) := mgr_drain m1 in
+          let c2 := if newly_dying m1 m2 then step false c1 LSendFault else c1 in
+          (upd_ms (upd_cs y c2) m2, mgr_outs (o1 ++ o2))
+        else (upd_ms (upd_cs y c1) m1, mgr_outs o1)
+    else (y, [])
+  | KFailSend => let '(m1, _, _) := ClientMgr.apply (y_ms y) FailSend in (upd_ms y m1, [])
+  | KRecvFault => (upd_cs y (step false c LRecvFault), [])
+  | KPeerClose => (upd_cs y (step false c LPeerClose), [])
+  | KReleaseClose =>
+    ({| y_cs := c; y_ms := y_ms y; y_slow := y_slow y; y_released := true; y_mdead := y_mdead y;
+        y_pend := y_pend y; y_ondisc := y_ondisc y |}, [])
+  | KDropClient => (upd_cs y (step false c LClientDrop), [])
+  | KSettle => (y, [])
+  end.
+
+Definition script_step (y : sys) (k : cmd) : sys * list sout :=
+  let '(y1, o1) := do_cmd y k in
+  let c1 := y_cs y1 in
+  let '(y2, o2) := quiesce (24 + length (fqueue c1) + 2 * length (callers c1)) y1 in
+  let c2 := y_cs y2 in
+  let y3 :=
+    if sp_exited c2 && rp_exited c2 && negb (y_mdead y2) then
+      {| y_cs := c2; y_ms := fst (kill (y_ms y2) FTransport); y_slow := y_slow y2; y_released := y_released y2;
+         y_mdead := true; y_pend := y_pend y2; y_ondisc := y_ondisc y2 |}
+    else y2 in
+  (y3, o1 ++ o2 ++ diff_done (y_cs y) c2 (y_ondisc y2) ++ diff_x (y_cs y) c2).
+
+Definition pending_handles (y : sys) : list handle :=
+  flat_map (fun hc => match snd hc with CQueued | CInMgr | CReadErr => [fst hc] | _ => [] end) (callers (y_cs y)).
